@@ -24,12 +24,13 @@ ITEMS = ["dg_window_min", "dg_window_max", "dg_max_members", "dg_unlimited", "dg
          "dg_budget_spent", "dg_too_many_members", "dg_gzip_reset", "dg_max_length", "dg_sniff_raw",
          "dg_remaining", "dg_needs_input_clears_pause", "dg_wait_checks_exception", "dg_close_keeps_pending_parser", "dg_low", "dg_high", "dg_highc", "dg_lowc", "dg_feed_pause", "dg_chunk_pause",
          "dg_resume_not_eof", "dg_resume_size", "dg_resume_when_empty", "dg_resume_chunks", "dg_split_stale", "dg_raises", "dg_raise_low", "dg_raise_high",
-         "dg_too_large", "dg_maxsize"]
+         "dg_too_large", "dg_maxsize", "dg_srv_closing_feeds"]
 
 CU = "aiohttp/compression_utils.py"
 HP = "aiohttp/http_parser.py"
 ST = "aiohttp/streams.py"
 WR = "aiohttp/web_request.py"
+WP = "aiohttp/web_protocol.py"
 
 
 def _int_const(rel, name):
@@ -378,4 +379,33 @@ def generate() -> str:
     order = [type(s).__name__ for s in wl.body]
     if order != ["Assign", "Expr", "If", "If"]:
         raise TranslatorError(f"BaseRequest.read: loop body shape changed: {order}")
+    # ---------------------------------------------------------------- web_protocol.py
+    # RequestHandler.data_received while the connection is closing (`self._force_close or self._close`):
+    # the gate that decides whether the request being handled still gets its body fed.  It is reached with
+    # b"" by BaseProtocol.resume_reading(), which is how input held by the paused parser is pushed on.
+    fn = core.find_function(WP, "data_received", cls="RequestHandler")
+    body = [s for s in fn.body if not (isinstance(s, ast.Expr) and isinstance(s.value, ast.Constant))]
+    first = body[0] if body else None
+    if not (isinstance(first, ast.If) and ast.dump(first.test) == _dump("self._force_close or self._close") and not first.orelse):
+        raise TranslatorError("RequestHandler.data_received: expected to start with `if self._force_close or self._close:`")
+    if not (len(first.body) == 3 and isinstance(first.body[0], ast.Assign) and ast.dump(first.body[0]) == ast.dump(ast.parse("request = self._current_request").body[0])
+            and isinstance(first.body[1], ast.If) and not first.body[1].orelse and isinstance(first.body[2], ast.Return) and first.body[2].value is None):
+        raise TranslatorError("RequestHandler.data_received: closing branch is not `request = self._current_request; if <gate>: <feed>; return`")
+    gate = first.body[1]
+    want_feed = ast.parse("try:\n    self._parser.feed_data(data)\nexcept HttpProcessingError:\n    pass").body
+    if [ast.dump(x) for x in gate.body] != [ast.dump(x) for x in want_feed]:
+        raise TranslatorError("RequestHandler.data_received: closing branch does not feed `self._parser.feed_data(data)` under `except HttpProcessingError: pass`")
+    conj = gate.test.values if isinstance(gate.test, ast.BoolOp) and isinstance(gate.test.op, ast.And) else [gate.test]
+    table = {_dump("data"): "nonempty", _dump("request is not None"): "has_req",
+             _dump("not request.content.is_eof()"): "negb at_eof", _dump("self.transport is not None"): "has_tr",
+             _dump("self._parser is not None"): "has_parser", _dump("self._payload_parser is None"): "negb has_pp",
+             _dump("not self._upgraded"): "negb upgraded"}
+    terms = []
+    for c in conj:
+        if ast.dump(c) not in table:
+            raise TranslatorError("RequestHandler.data_received: closing gate has an unrecognised conjunct: " + ast.unparse(c))
+        terms.append(table[ast.dump(c)])
+    out.append("(* the closing-connection gate of RequestHandler.data_received, conjunct by conjunct *)\n"
+               "Definition dg_srv_closing_feeds (nonempty has_req at_eof has_tr has_parser has_pp upgraded : bool) : bool := "
+               + " && ".join(f"({t})" for t in terms) + ".")
     return "\n".join(out) + "\n"
